@@ -36,10 +36,29 @@ def findings_table():
     return '\n'.join(rows)
 
 
+def status_table():
+    import importlib
+    import sys
+    sys.path.insert(0, str(V))
+    rows = ['| property | property theorems | partial / bounded | regenerated fragments (translators) | what the check decides |', '|---|---|---|---|---|']
+    for n in range(1, 21):
+        pid = f'C{n:02d}'
+        f = V / 'props' / f'{pid.lower()}.py'
+        if not f.exists():
+            rows.append(f'| {pid} | - | - | - | not built |')
+            continue
+        m = importlib.import_module('props.' + pid.lower())
+        th = [t for t in m.THEOREMS if 'example' not in t.lower() and '_ex' not in t.lower()]
+        partial = '; '.join(f'`{k}`: {" ".join(v.split())[:140]}' for k, v in getattr(m, 'PARTIAL', {}).items()) or 'none'
+        trs = ', '.join(t.__module__.split('.')[-1] for t in getattr(m, 'TRANSLATORS', [])) or '-'
+        rows.append(f'| {pid} | {len(th)} (+{len(m.THEOREMS) - len(th)} examples) | {partial} | {trs} | {" ".join(m.LEVEL_TEXT.split())[:420]} |')
+    return '\n'.join(rows)
+
+
 def main():
     p = V / 'DESIGN.md'
     s = p.read_text()
-    for name, fn in (('SEEDED', seeded_table), ('FINDINGS', findings_table)):
+    for name, fn in (('SEEDED', seeded_table), ('FINDINGS', findings_table), ('STATUS', status_table)):
         b, e = f'<!-- {name}-TABLE-BEGIN -->', f'<!-- {name}-TABLE-END -->'
         if b in s:
             s = re.sub(re.escape(b) + '.*?' + re.escape(e), b + '\n' + fn() + '\n' + e, s, flags=re.S)
